@@ -91,6 +91,32 @@ def run(ctx):
         missing = [n for n in need if not tree_calls(b, n)]
         res.check(not missing, "R16.2", "utils-" + fn_, b.where(), "%s reads %s" % (fn_, [n.rstrip("$") for n in need]), "%s no longer reads %s" % (fn_, missing))
 
+    # R16.2b per-function census of alias-less getters in the generator modules: a generator function that reads the
+    # canonical long/short/name must read the visible aliases as well, or be a listed exception
+    EXC = {
+        "clap_complete::aot::shells::fish::gen_subcommand_helpers": "argparse optspec for fish's own option parsing needs one spelling per option",
+        "clap_complete::aot::shells::zsh::arg_conflicts::push_conflicts": "exclusion lists name the canonical spelling; aliases are added by the caller's own entries",
+        "clap_complete::aot::shells::zsh::get_subcommands_of": "case label / function name of the canonical subcommand",
+        "clap_complete::aot::shells::zsh::get_args_of": "function name of the canonical subcommand",
+    }
+    PAIR = {"get_long": r"Arg::(get_visible_aliases|get_long_and_visible_aliases)$", "get_short": r"Arg::(get_visible_short_aliases|get_short_and_visible_aliases)$",
+            "get_name": r"Command::(get_visible_aliases|get_name_and_visible_aliases)$"}
+    ncen = 0
+    for b in fx.bodies(r"^clap_complete::aot::shells::(bash|zsh|fish|powershell|elvish)::|^clap_complete_nushell::"):
+        top = b
+        while top.parent is not None:
+            top = top.parent
+        for c in b.calls_to(r"clap_builder::builder::arg::Arg::get_long$", r"clap_builder::builder::arg::Arg::get_short$", r"clap_builder::builder::command::Command::get_name$"):
+            if sp_macro(c.sp):
+                continue   # debug! arguments
+            ncen += 1
+            g = c.callee_q.rsplit("::", 1)[1]
+            paired = bool(tree_calls(top, PAIR[g]))
+            res.check(paired or top.q in EXC, "R16.2", "alias-census|%s|%s" % (top.q, g), c.where(),
+                      "%s paired with the visible-alias getter" % g if paired else "exception: %s" % EXC.get(top.q),
+                      "%s reads %s() but never the visible aliases: aliases of this item kind are not mentioned by this generator function" % (top.q.rsplit("::", 1)[1], g))
+    res.floor("R16.2", "alias-less getter uses in generator modules", ncen, 8)
+
     # ---- R16.3 separator agreement
     def lits_of(bodies, callee_rx, argi):
         out = []
